@@ -23,14 +23,14 @@ import Keto.Proofs.ExpandLemmas
 
 namespace Keto
 
-/-- The two depth guards of `buildTreeRecursive` (`restDepth <= 0` in the clamp,
-    `restDepth <= 1` for the leaf) are the ones `Keto.expand` encodes (regenerated from the
-    sources on every run). -/
+/-- The two depth tests of `buildTreeRecursive` MEAN what `Keto.expand` encodes: the request clamp
+    (`restDepth <= 0 || globalMaxDepth < restDepth`, i.e. `effDepth`) and the leaf test
+    (`restDepth <= 1`); both are translated from the Go expressions on every run and compared as
+    functions on `Int`; they are the only two tests of the depth in expand/engine.go. -/
 theorem C09_depth_sites_tie :
-    ("internal/expand/engine.go", "Engine.buildTreeRecursive", "restDepth <= 0") ∈ Facts.depthGuards ∧
-    ("internal/expand/engine.go", "Engine.buildTreeRecursive", "restDepth <= 1") ∈ Facts.depthGuards ∧
-    (Facts.depthGuards.filter (fun g => g.1 == "internal/expand/engine.go")).length = 2 := by
-  rw [FactsTie.depthGuards_tie]; decide
+    (∀ g r : Int, Facts.cond8 g r = decide (r ≤ 0 ∨ g < r)) ∧ (∀ d : Int, Facts.cond9 d = decide (d ≤ 1)) ∧
+    (Facts.depthConds.filter (fun g => g.1 == "internal/expand/engine.go")).length = 2 :=
+  ⟨fun g r => (FactsTie.clamp_sem g r).2, FactsTie.guard_le1_sem, by decide⟩
 
 /-- Every parent → child edge of the tree is a stored tuple: the parent is a subject set
     `n:o#r` and `⟨n, o, r, child⟩ ∈ T`. For all stores, depths, page sizes, subjects, fuel
